@@ -574,7 +574,7 @@ func TestC18(t *testing.T) {
 				if k == "remove-base" && !m.Mandatory || k == "unknown-substitute-optional" && m.Mandatory {
 					continue
 				}
-				if !seen[v.Name+"/"+k+"/"+m.Abv] {
+				if !seen[v.Name+"/"+k+"/"+m.Abv] && !env.Light {
 					missing++
 					h.R.Inconclusive("defect kind %s never applied to v%s metric %s", k, v.Name, m.Abv)
 				}
